@@ -10,7 +10,9 @@ VARIABLES str, q, segs, tab
 vars == <<str, q, segs, tab>>
 \* representative segments: valid plain, valid raw, `r`, keyword-like, and the invalid families
 cL == <<"L", 0>> cr == <<"r", 114>> cu == <<"_", 95>> cD == <<"D", 0>> cH == <<"#", 35>> cC == <<":", 58>> cU == <<"U", 0>>
-RepSegs == { <<cL>>, <<cr,cH,cL,cD>>, <<cr>>, <<cu,cD>>, <<cD,cL>>, <<>>, <<cr,cH,cr,cH,cL>>, <<cL,cU>>, <<cL,cC>>, <<cr,cH>> }
+\* (the last one is a segment that CONTAINS the separator between two valid pieces: as an ident it is one invalid
+\* segment, never two valid ones)
+RepSegs == { <<cL>>, <<cr,cH,cL,cD>>, <<cr>>, <<cu,cD>>, <<cD,cL>>, <<>>, <<cr,cH,cr,cH,cL>>, <<cL,cU>>, <<cL,cC>>, <<cr,cH>>, <<cL,cC,cC,cu,cD>> }
 Keys == { <<cL>>, <<cu,cD>>, <<cr>> }
 Vals == { <<cL,cL>>, <<cD,cL>>, <<cL>> }
 SegLists == UNION {[1..n -> RepSegs] : n \in 0..MaxSegs}
